@@ -128,8 +128,13 @@ Inductive pc :=
 | PLnkC (np : nat) (nm : cname) (oc : nat)
 | PSymW (parent : nat) (nm : cname) (target : cpath)
 | PMkAllW (parent : nat) (nm : cname) (rest : cpath)
+| PSymR (c : nat) (w : wst) (m : slm) (k : wk)      (* asks R c: reads the target of the symbolic link c *)
+| PRenD (o n : kwres) (nc : nat)                    (* asks W nc: the file or link that Rename replaces *)
 | PRmAllP (parent child : nat) (nm : cname)
-| PRmAllR (parent child : nat) (nm : cname) (stack : list rmframe) (d : nat)
+| PRmAllE (parent child : nat) (nm : cname)         (* asks R child: is the directory empty ? *)
+| PRmAllR (parent child : nat) (nm : cname) (stack : list rmframe) (d : nat)   (* asks W d: removeAll(d) starts *)
+| PRmAllK (parent child : nat) (nm : cname) (stack : list rmframe) (y : nat)   (* asks W y: delete() of an entry already unlinked *)
+| PRmAllD (parent child : nat) (nm : cname)         (* asks W child: delete() of the removed node itself *)
 | PStatC (c : nat)
 | PIdle.
 
@@ -151,8 +156,13 @@ Definition pc_request (p : pc) : option req :=
   | PLnkP d _ _ => k_wr d
   | PLnkC _ _ c => k_wr c
   | PSymW d _ _ | PMkAllW d _ _ => k_wr d
+  | PSymR c _ _ _ => k_rd c
+  | PRenD _ _ nc => k_wr nc
   | PRmAllP d _ _ => k_wr d
+  | PRmAllE _ c _ => k_rd c
   | PRmAllR _ _ _ _ d => k_wr d
+  | PRmAllK _ _ _ _ y => k_wr y
+  | PRmAllD _ c _ => k_wr c
   | PStatC c => k_rd c
   | PIdle => None
   end.
@@ -163,7 +173,9 @@ Definition pc_holds (p : pc) : list hold :=
   | PRemoveC d _ _ => [(d, true)]
   | PRenN o _ => [(wr_parent o, true)]
   | PLnkC d _ _ => [(d, true)]
-  | PRmAllR d _ _ st _ => (d, true) :: rev (map (fun f : rmframe => (fst f, true)) st)
+  | PRenD o n _ => (wr_parent o, true) :: (if Nat.eqb (wr_parent n) (wr_parent o) then [] else [(wr_parent n, true)])
+  | PRmAllE d _ _ | PRmAllD d _ _ => [(d, true)]
+  | PRmAllR d _ _ st _ | PRmAllK d _ _ st _ => (d, true) :: rev (map (fun f : rmframe => (fst f, true)) st)
   | _ => []
   end.
 
@@ -355,17 +367,7 @@ Definition k_walk_step (ls : lst) (h : cheap) (w : wst) (m : slm) (k : wk) : lst
               let sl' := S (w_sl w) in
               if Nat.ltb k_slmax sl' then k_wdone ls h (res (Some c) XELOOP) k
               else if last && match m with SLstat => true | SEval => false end then k_wdone ls h (res (Some c) XEEXIST) k
-              else
-                (* PathIterator.ReplacePart with an absolute target: the walk goes on in the current
-                   directory when the new path still starts with the components already walked *)
-                let np := tg ++ tl in
-                if cpath_prefix (w_done w) np && Nat.ltb (length (w_done w)) (length np)
-                then k_goto ls (PWalk {| w_cur := w_cur w; w_done := w_done w; w_rest := skipn (length (w_done w)) np;
-                                         w_sl := sl'; w_arg := w_arg w |} m k)
-                else match np with
-                     | [] => k_ret ls (KErr XEFUEL)
-                     | (_ :: _) as p' => k_goto ls (PWalk {| w_cur := 0; w_done := []; w_rest := p'; w_sl := sl'; w_arg := w_arg w |} m k)
-                     end
+              else k_goto ls (PSymR c {| w_cur := w_cur w; w_done := w_done w; w_rest := w_rest w; w_sl := sl'; w_arg := w_arg w |} m k)
           | None => k_ret ls (KErr XEFUEL)
           end
       end
@@ -395,24 +397,32 @@ Definition k_sort_kids (l : list (cname * nat)) : list (cname * nat) := fold_rig
 Definition k_heap_size (h : cheap) : nat :=
   fold_right (fun n acc => match n with KDir ch => S (length ch) + acc | _ => S acc end) 0 h.
 
-(* runs removeAll's loops until a sub-directory has to be locked ([Some (stack, d)]) or the
-   outermost removeAll returns ([None]) *)
-Fixpoint k_rm_loop (fuel : nat) (h : cheap) (stack : list rmframe) : cheap * option (list rmframe * nat) :=
-  match fuel with
-  | O => (h, None)
-  | S f =>
-      match stack with
-      | [] => (h, None)
-      | (d, []) :: st =>
-          match st with
-          | [] => (h, None)
-          | (pd, []) :: _ => (h, None)
-          | (pd, (nm, c) :: ptodo) :: st' => k_rm_loop f (k_del_node (k_remove_child h pd nm) c) ((pd, ptodo) :: st')
-          end
-      | (d, (nm, c) :: todo) :: st =>
-          if k_is_dir h c then (h, Some (stack, c))
-          else k_rm_loop f (k_del_node (k_remove_child h d nm) c) ((d, todo) :: st)
+(* removeAll(x) iterates over the entries of the directories it has locked; [st] is the stack of
+   frames (directory, entries still to process), innermost first.  The entry being processed
+   stays at the head of its frame until its node has been deleted.  Every step handles one
+   entry, so no fuel is needed. *)
+Inductive rm_next_r :=
+| RmEnter (y : nat)                 (* lock the sub-directory y and recurse *)
+| RmDelete (y : nat)                (* the entry is unlinked; lock its node y for delete() *)
+| RmTop.                            (* the outermost removeAll has returned *)
+
+Definition k_rm_next (h : cheap) (st : list rmframe) : cheap * list rmframe * rm_next_r :=
+  match st with
+  | [] => (h, [], RmTop)
+  | (x, []) :: st' =>
+      match st' with
+      | [] => (h, [], RmTop)
+      | (px, []) :: _ => (h, [], RmTop)
+      | (px, (n, y) :: _) :: _ => (k_remove_child h px n, st', RmDelete y)
       end
+  | (x, (n, y) :: _) :: _ =>
+      if k_is_dir h y then (h, st, RmEnter y) else (k_remove_child h x n, st, RmDelete y)
+  end.
+
+Definition pop_entry (st : list rmframe) : list rmframe :=
+  match st with
+  | (x, _ :: todo) :: st' => (x, todo) :: st'
+  | _ => st
   end.
 
 (* ---- Rename's locked part ---------------------------------------------------------------------------------- *)
@@ -440,7 +450,7 @@ Definition k_ren_body (ls : lst) (h : cheap) (o n : kwres) : cheap * lst :=
                | Some nc =>
                    match hget h nc with
                    | Some (KDir _) => (h, k_ret ls (KErr XEEXIST))
-                   | Some _ => (move (k_del_node h nc), k_ret ls KOk)
+                   | Some _ => (h, k_goto ls (PRenD o n nc))
                    | None => (h, k_ret ls (KErr XEFUEL))
                    end
                end
@@ -491,15 +501,49 @@ Definition mc_segment (ls : lst) (h : cheap) : cheap * lst :=
       end
   | PSymW d nm tg => let '(h1, c) := k_alloc h (KSym tg) in (k_add_child h1 d nm c, k_ret ls KOk)
   | PMkAllW d nm rest => (k_mkall h d nm rest, k_ret ls KOk)
-  | PRmAllP d c nm =>
-      if k_is_dir h c && negb (match k_kids h c with [] => true | _ => false end)
-      then (h, k_goto ls (PRmAllR d c nm [] c))
-      else (k_del_node (k_remove_child h d nm) c, k_ret ls KOk)
-  | PRmAllR d c nm st x =>
-      match k_rm_loop (2 * k_heap_size h + 8) h ((x, k_sort_kids (k_kids h x)) :: st) with
-      | (h', Some (st', y)) => (h', k_goto ls (PRmAllR d c nm st' y))
-      | (h', None) => (k_del_node (k_remove_child h' d nm) c, k_ret ls KOk)
+  | PSymR c w m k =>
+      match w_rest w with
+      | [] => (h, k_ret ls (KErr XEFUEL))
+      | _ :: tl =>
+          let tg := match hget h c with Some (KSym t) => t | _ => [] end in
+          (* PathIterator.ReplacePart: an absolute target replaces the path walked so far; the walk goes
+             on in the current directory when the new path still starts with the components already
+             walked, else from the root.  (An empty target - a deleted link - just drops the part.) *)
+          let np := match tg with [] => w_done w ++ tl | _ => tg ++ tl end in
+          if cpath_prefix (w_done w) np && Nat.ltb (length (w_done w)) (length np)
+          then (h, k_goto ls (PWalk {| w_cur := w_cur w; w_done := w_done w; w_rest := skipn (length (w_done w)) np;
+                                       w_sl := w_sl w; w_arg := w_arg w |} m k))
+          else match np with
+               | [] => (h, k_ret ls (KErr XEFUEL))
+               | (_ :: _) as p' => (h, k_goto ls (PWalk {| w_cur := 0; w_done := []; w_rest := p'; w_sl := w_sl w; w_arg := w_arg w |} m k))
+               end
       end
+  | PRenD o n nc =>
+      match wr_child o with
+      | Some oc => (k_remove_child (k_add_child (k_del_node h nc) (wr_parent n) (wr_part n) oc) (wr_parent o) (wr_part o), k_ret ls KOk)
+      | None => (h, k_ret ls (KErr XEFUEL))
+      end
+  | PRmAllP d c nm =>
+      if k_is_dir h c then (h, k_goto ls (PRmAllE d c nm))
+      else (k_remove_child h d nm, k_goto ls (PRmAllD d c nm))
+  | PRmAllE d c nm =>
+      match k_kids h c with
+      | [] => (k_remove_child h d nm, k_goto ls (PRmAllD d c nm))
+      | _ :: _ => (h, k_goto ls (PRmAllR d c nm [] c))
+      end
+  | PRmAllR d c nm st x =>
+      match k_rm_next h ((x, k_sort_kids (k_kids h x)) :: st) with
+      | (h', st', RmEnter y) => (h', k_goto ls (PRmAllR d c nm st' y))
+      | (h', st', RmDelete y) => (h', k_goto ls (PRmAllK d c nm st' y))
+      | (h', _, RmTop) => (k_remove_child h' d nm, k_goto ls (PRmAllD d c nm))
+      end
+  | PRmAllK d c nm st y =>
+      match k_rm_next (k_del_node h y) (pop_entry st) with
+      | (h', st', RmEnter z) => (h', k_goto ls (PRmAllR d c nm st' z))
+      | (h', st', RmDelete z) => (h', k_goto ls (PRmAllK d c nm st' z))
+      | (h', _, RmTop) => (k_remove_child h' d nm, k_goto ls (PRmAllD d c nm))
+      end
+  | PRmAllD d c nm => (k_del_node h c, k_ret ls KOk)
   | PStatC _ => (h, k_ret ls (KErr XENOENT))
   | PIdle => (h, ls)
   end.
